@@ -1,6 +1,7 @@
 //! Checks on p2panda-core / p2panda-store / p2panda-stream (no networking crates).
 use explorer::{Args, Report};
 
+mod c01;
 mod c06;
 mod c08;
 mod c09;
@@ -13,6 +14,7 @@ fn main() {
     let args = Args::parse();
     explorer::quiet_panics();
     let code = match args.property.as_str() {
+        "C01" => c01::run(Report::new(&args, "model_checking")),
         "C03" => ingest::run_c03(Report::new(&args, "model_checking")),
         "C05" => ingest::run_c05(Report::new(&args, "model_checking")),
         "C06" => c06::run(Report::new(&args, "model_checking")),
